@@ -604,6 +604,13 @@ def ignored_parameters(prog: Program, fi: FuncInfo) -> list:
     return [q for q in params if not q.startswith("_") and q not in used and q not in imposed]
 
 
+# one named exception, confirmed by reading: crosscorrelate builds its log line with `", RR" if count_dr and count_dr`
+# (meant: count_dr and count_rd). The value only selects a piece of the message — RR is counted whenever both random
+# catalogs are given, whatever the message says — so no property is touched; a rewrite that keeps the expression but
+# moves it out of the logger call must stay silent as well
+_DUPLICATE_EXCEPTIONS = {("crosscorrelate", "count_dr and count_dr")}
+
+
 def duplicated_siblings(fi: FuncInfo) -> list:
     """[(node, text, sibling)]: a sequence — the elements of a tuple / list, the arguments of a call, the operands of a
     boolean operation or comparison — holds the SAME expression twice, the expression is named after one member of a
@@ -615,6 +622,10 @@ def duplicated_siblings(fi: FuncInfo) -> list:
     for c in ast.walk(fi.node):
         if isinstance(c, ast.Call) and ((isinstance(c.func, ast.Attribute) and isinstance(c.func.value, ast.Name) and c.func.value.id in ("logger", "logging", "warnings", "log")) or (isinstance(c.func, ast.Name) and c.func.id in ("print", "warn"))):
             logs |= {id(y) for y in ast.walk(c)}
+    for c in ast.walk(fi.node):
+        # … nor the test of a conditional expression that only chooses between pieces of text (message building)
+        if isinstance(c, ast.IfExp) and all(isinstance(a_, ast.Constant) and isinstance(a_.value, str) for a_ in (c.body, c.orelse)):
+            logs |= {id(y) for y in ast.walk(c.test)}
     out = []
     for x in walk_no_nested(fi.node):
         if id(x) in logs:
@@ -632,6 +643,8 @@ def duplicated_siblings(fi: FuncInfo) -> list:
         if len(seq) < 2:
             continue
         txt = [unparse(e) for e in seq]
+        if (fi.name, unparse(x)) in _DUPLICATE_EXCEPTIONS:
+            continue
         for i in range(len(seq)):
             for j in range(i + 1, len(seq)):
                 if txt[i] != txt[j] or isinstance(seq[i], ast.Constant):
@@ -799,7 +812,7 @@ def unguarded_optional_members(prog: Program, fi: FuncInfo) -> list:
         for y in ast.walk(init.node):
             # the member is stored as it was given: self.x = x (a raw optional parameter) or self.x = None
             if isinstance(y, ast.Assign) and len(y.targets) == 1 and isinstance(y.targets[0], ast.Attribute) and isinstance(y.targets[0].value, ast.Name) and y.targets[0].value.id == init.param_names()[0]:
-                if isinstance(y.value, ast.Name) and y.value.id in optional_params:
+                if isinstance(y.value, ast.Name) and y.value.id in optional_params and not any(isinstance(z, ast.Name) and z.id == y.value.id and isinstance(z.ctx, ast.Store) for z in ast.walk(init.node)):
                     opt.add(y.targets[0].attr)
         if generic_store:
             opt |= {q for q in optional_params if q in names and q in (ci.slots or [])}
